@@ -105,17 +105,7 @@ theorem C10_generated_exp (fuel : Nat) (hf : expFuel ≤ fuel) (b e : BitVec 64)
 theorem C10_generated_inv_any_fuel (fuel : Nat) (a r : BitVec 64) (h : Gen.InvGen.inv___eE fuel a = some r) :
     Model.inv a = some r := by
   rw [← inv_e_gen_eq (max fuel invFuel) (Nat.le_max_right _ _) a]
-  unfold Gen.InvGen.inv___eE at h ⊢
-  by_cases hz : Gen.Scalar.isZero a = true
-  · simp only [hz, if_true] at h; cases h
-  · simp only [hz, Bool.false_eq_true, if_false] at h ⊢
-    cases hw : Loop.whileM Gen.InvGen.inv___eE_loop1 fuel
-        (0#64, 0#64, 0#64, 0#64, 1#64, 18446744069414584321#64, Gen.Scalar.toU64__rE a) with
-    | none => rw [hw] at h; cases h
-    | some st =>
-      rw [hw] at h
-      rw [Loop.whileM_mono _ fuel _ st (max fuel invFuel) hw (Nat.le_max_left _ _)]
-      exact h
+  exact inv_e_gen_mono fuel (max fuel invFuel) (Nat.le_max_left _ _) a r h
 
 /-- non-vacuity: non-canonical operands are covered (p + 3 denotes 3 ≠ 0) -/
 example : den 18446744069414584324#64 ≠ 0 := by
